@@ -1,3 +1,2 @@
-import FluteModel.Drv.Util
--- stub: engine `recv` not built yet
-def main : IO Unit := Flute.Drv.runDriver () (fun _ _ => ((), "bad-op"))
+import FluteModel.Drv.Recv
+def main : IO Unit := Flute.Drv.runDriver Flute.Drv.Recv.init Flute.Drv.Recv.step
